@@ -1,6 +1,8 @@
 (* C19 - all input forms and front ends give the same result.
    The part about the library entry points (parse / parsestream / split / format x str / bytes /
    stream); the command line is covered by the direct oracle in tools/props/C19.py. *)
+From SqlModel.Props Require C19cli.   (* the command line front end *)
+From SqlModel.Gen Require LexPins.   (* the scan loop, is_keyword, consume and the class-level state of sqlparse/lexer.py have the pinned shape *)
 From SqlModel Require Import Base PyStr Utf8 Utf8Facts Lexer.
 From SqlModel.Sys Require Import FrontDefs Frontends FrontendsFacts.
 From SqlModel.Gen Require Frontends.
